@@ -149,7 +149,12 @@ def to_numeric(x, vals, elem_vals=None):
             return x.const
         raise SymError("cannot evaluate SymBool numerically")
     if isinstance(x, Elem):
-        return elem_vals.setdefault(x.name, float(len(elem_vals) + 1))
+        if x.name not in elem_vals:
+            k = sum(1 for n in elem_vals if not n.startswith("__")) + 1
+            # opaque entries are numbered; with "__complex__" set they get distinct non-real values (a stray conjugate or a
+            # dropped imaginary part in code that should only move entries around is invisible on real numbers)
+            elem_vals[x.name] = complex(k, (3 * k) % 11 + 1) if elem_vals.get("__complex__") else float(k)
+        return elem_vals[x.name]
     if isinstance(x, np.ndarray) and x.dtype == object:
         flat = [to_numeric(v, vals, elem_vals) if isinstance(v, (Sym, Elem, SymBool)) else v for v in x.flat]
         cplx = any(isinstance(v, complex) or (isinstance(v, Sym) and v.im.t) for v in list(flat) + list(x.flat))
@@ -340,6 +345,7 @@ def run_obligation(ob: Obligation, seed=0):
            "solver_s": 0.0, "notes": [], "stubs": [], "neg_control": None, "reachable": None,
            "tv": None, "smt_assertions": 0}
     post = ob.post or _default_post
+    inputs = ctx = None
     try:
         ctx = Ctx(ob.mode, ob.name)
         ctx.abs_fork = ob.abs_fork
@@ -522,8 +528,18 @@ def run_obligation(ob: Obligation, seed=0):
         rec["status"] = "inconclusive"
         rec["notes"].append(f"SymError: {e}")
         rec["trace"] = traceback.format_exc()[-1500:]
-        # the code could not be executed symbolically (it realised a symbolic value): nothing is proved, but the
-        # harness' concrete witnesses are still run through the real code so that a plain wrong answer is not missed
+        # the code could not be executed symbolically (it realised a symbolic value): nothing is proved, but generic points of
+        # the symbolic inputs (opaque entries also as distinct complex numbers) and the harness' concrete witnesses are still run
+        # through the real code so that a plain wrong answer is not missed
+        if inputs is not None and ob.witness is None:
+            try:
+                rep = replay_candidates(ob, ctx, inputs, [], seed)
+                if rep is not None:
+                    rec["status"] = "violation"
+                    rep["source"] = rep["source"].replace("after solver sat", "(symbolic execution was not possible)")
+                    rec["violation"] = rep
+            except Exception as e2:  # noqa: BLE001
+                rec["notes"].append(f"generic-point fallback failed: {type(e2).__name__}: {e2}")
         if ob.witness is not None:
             try:
                 for ninputs in ob.witness():
@@ -656,7 +672,33 @@ def replay_candidates(ob, ctx, inputs, cand_vals, seed):
         if not ok:
             return {"source": "solver model" if k < len(cand_vals) else ("generic point after solver sat" if k < len(tries) else "harness witness after solver sat"),
                     "inputs": jsonable(ninputs), **detail}
+    if _has_elem(inputs):
+        # opaque entries evaluated as distinct COMPLEX numbers
+        for vals in tries[:2] or [{}]:
+            try:
+                ninputs = to_numeric(inputs, vals, {"__complex__": True})
+                if ob.valid is not None and not ob.valid(ninputs):
+                    continue
+                ok, detail = numeric_verdict(ob, ninputs)
+            except SymError:
+                raise
+            except Exception:  # noqa: BLE001
+                continue
+            if not ok:
+                return {"source": "generic point with complex entries", "inputs": jsonable(ninputs), **detail}
     return None
+
+
+def _has_elem(x):
+    if isinstance(x, Elem):
+        return True
+    if isinstance(x, np.ndarray) and x.dtype == object:
+        return any(isinstance(v, Elem) for v in x.flat)
+    if isinstance(x, (list, tuple)):
+        return any(_has_elem(v) for v in x)
+    if isinstance(x, dict):
+        return any(_has_elem(v) for v in x.values())
+    return False
 
 
 def _array_leaves(x, path=()):
